@@ -9,7 +9,7 @@ RULE = ('class = (d class, L in {0,1,2,3,64}, |K| class, rounds class, number of
 ASSUMPTIONS = ['own MD6 reference (self-tested on the three examples of the MD6 report, md6-256("abc") and md6-512(""))',
                'left-justified output for d mod 8 != 0 (reference trim_hashval; what crysp\'s own PAR path does)']
 ANCHORS = [('md.py', 'MD6.__call__'), ('md.py', 'MD6.PAR'), ('md.py', 'MD6.SEQ'), ('md.py', 'MD6.f'), ('md.py', 'MD6.__init__')]
-REQUIRED = ['siblings:md6==spec', 'md6==spec', 'digest-length']
+REQUIRED = ['rounds-history:md6==spec', 'siblings:md6==spec', 'md6==spec', 'digest-length']
 NSHARDS = 14
 SAN = {'quick': (2, 60), 'thorough': (2, 60)}
 CASE_CPU_S = 400
@@ -35,7 +35,7 @@ def cases(tier, rng):
                     if tier == 'quick' and (j % 9) and not (ml in (0, 3) and kl in (0, 8)):
                         continue
                     nblk = max(1, -(-ml // 512))
-                    r = [1, 2, 5, 3][j % 4] if nblk > 4 or tier == 'quick' else [None, 5, 2, 1][j % 4]
+                    r = [6, 2, 8, 3][j % 4] if nblk > 4 or tier == 'quick' else [None, 5, 8, 1][j % 4]
                     bl = None if j % 3 else (8 * ml - (j % 7) - 1 if ml else None)
                     yield {'k': 'md6', 'd': d, 'L': L, 'kl': kl, 'ml': ml, 'r': r, 'bl': bl}
     # default rounds on small messages for every d class / mode
@@ -43,6 +43,12 @@ def cases(tier, rng):
         for L in (0, 1, 64):
             for ml, bl in ((0, None), (3, None), (3, 17), (513, None), (600, 4799)):
                 yield {'k': 'md6', 'd': d, 'L': L, 'kl': [0, 10][ml % 2], 'ml': ml, 'r': None, 'bl': bl}
+    for d in (256, 7, 512):
+        for L in LS:
+            for ml, bl in ((600, 100), (600, 4096), (600, 4097), (2049, 4096), (2049, 8 * 512 * 3 + 5), (1000, 3), (5000, 8 * 2048), (5000, 8 * 2048 + 1), (9000, 8 * 8192 + 3)):
+                yield {'k': 'md6', 'd': d, 'L': L, 'kl': [0, 3][ml % 2], 'ml': ml, 'r': 6, 'bl': bl}
+    for j in range(12 if tier == 'quick' else 100):
+        yield {'k': 'rounds-history', 'j': j, 'd': 0, 'L': 0, 'kl': 0, 'ml': 0, 'r': 2, 'bl': None}
     # deep trees (4 levels) and long sequential chains with tiny round counts
     for ml in ((65 * 512, 64 * 512 + 1, 100 * 384) if tier == 'quick' else (65 * 512, 64 * 512, 64 * 512 + 1, 100 * 384, 257 * 512)):
         for L in (64, 1, 0, 2):
@@ -58,6 +64,19 @@ def nblk_class(ml):
 
 def run(case, ctx, rng):
     from crysp.md import MD6
+    if case['k'] == 'rounds-history':
+        # the round count is a public attribute: one object, digests taken at several round counts
+        d = rng.choice([128, 256, 512, 7]); L = rng.choice(LS); key = rng.randbytes(rng.choice([0, 5]))
+        M = rng.randbytes(rng.choice([3, 513, 1537]))
+        ctx.cls(('rounds-history', case['j'] % 4))
+        h = MD6(d, key, L)
+        hist = []
+        for r in [rng.choice([1, 2, 3, 5, 7]) for _ in range(4)] + [None]:
+            if r is not None: h.rounds = r
+            else: r = h.rounds
+            hist.append(r)
+            ctx.eq('rounds-history:md6==spec', call(h, M), rm.md6(d, M, None, key, L, r), d=d, L=L, key=key, rounds=list(hist), ml=len(M))
+        return
     if case['k'] == 'siblings':
         from vmon.core import siblings
         ctx.cls(('siblings', case['j'] % 4))
